@@ -246,6 +246,9 @@ class BuildAssembly(Assembly):
                     if not new_scffld:
                         new_scffld = Scaffold(scffld.name)
                         new_scffld.rank = 3
+                        new_scffld.input_predecessor = self.input_predecessor(
+                            scffld, i
+                        )
                     if last_added_i is not None and last_added_i != i - 1:
                         # Last added row was not the previous row in the
                         # scaffold
@@ -266,6 +269,41 @@ class BuildAssembly(Assembly):
                     new_scffld.tag = "Contaminant"
                 new_scffld.haplotype = scaffold_namer.current_haplotype
                 self.add_scaffold(new_scffld)
+
+    @staticmethod
+    def input_predecessor(scffld: Scaffold, i: int):
+        """
+        Returns the Fragment before row `i` of the Scaffold and the Gap between
+        them (or None if they abut), or None if row `i` is the first Fragment.
+        """
+        gap = None
+        for row in scffld.rows[i - 1 :: -1] if i else ():
+            if isinstance(row, Gap):
+                gap = gap or row
+            else:
+                return row, gap
+        return None
+
+    def gap_before_leftover(self, build_scffld: Scaffold, scffld: Scaffold):
+        """
+        The gap to put between the rows fused so far and a left-over Scaffold
+        from the input assembly: what the input had there (a Gap, or None
+        where the contigs abut) if the last row is still the end of the
+        left-over's neighbour in the input, otherwise the default gap.
+        """
+        pred = getattr(scffld, "input_predecessor", None)
+        if pred and build_scffld.rows:
+            prev, gap = pred
+            last = build_scffld.rows[-1]
+            if (
+                isinstance(last, Fragment)
+                and last.name == prev.name
+                and last.strand == prev.strand
+                and (last.start if prev.strand == -1 else last.end)
+                == (prev.start if prev.strand == -1 else prev.end)
+            ):
+                return gap
+        return self.default_gap
 
     def assemblies_with_scaffolds_fused(self) -> list[Assembly]:
         chr_namer = ChrNamer(chr_prefix=self.autosome_prefix)
@@ -325,7 +363,9 @@ class BuildAssembly(Assembly):
             if isinstance(scffld, OverlapResult):
                 build_scffld.append_scaffold(scffld.to_scaffold(), gap)
             else:
-                build_scffld.append_scaffold(scffld)
+                build_scffld.append_scaffold(
+                    scffld, self.gap_before_leftover(build_scffld, scffld)
+                )
 
         for scffld in hap_name_scaffold.values():
             yield scffld
